@@ -301,6 +301,18 @@ fn extra_cases() -> Vec<Case> {
     for lit in ["{\"a\": 1, a}", "{a, \"a\": 1}", "{d.., a}", "{a, d..}", "{d.., a, \"a\": 3}", "{\"a\": 1, a, d..}"] {
         v.push(Case::new(format!("a := 2\nd := {{\"a\": 9, \"z\": 0}}\nprint({})\n", lit), 601, format!("shorthand against other entries {}", lit)));
     }
+    // `.` and `[]` spell the same update at the edges of the integer range too
+    for (start, op, by) in [("9223372036854775807", "+=", "1"), ("9223372036854775806", "+=", "1"), ("-9223372036854775807", "-=", "1"), ("-9223372036854775807", "-=", "2"), ("4611686018427387904", "*=", "2"), ("5", "/=", "0"), ("-9223372036854775807 - 1", "/=", "-1"), ("-9223372036854775807 - 1", "%=", "-1"), ("1", "+=", "\"s\"")] {
+        for target in ["o.k", "o[\"k\"]", "o[key]", "w.o.k", "w[\"o\"][\"k\"]"] {
+            v.push(Case::new(format!("key := \"k\"\no := {{\"k\": {}}}\nw := {{\"o\": o}}\nprint(\"pre\")\n{} {} {}\nprint(o.k)\nprint(o[\"k\"])\n", start, target, op, by), 601, format!("{} {} {} on {}", start, op, by, target)));
+        }
+    }
+    // the shorthand `{a}` means `{"a": a}` wherever `a` is declared
+    for ctxt in ["@", "{\n@}\n", "if true {\n@}\n", "for e in [1] {\n@}\n", "fn f() {\n@}\nf()\n", "fn f(b) {\n@}\nf(2)\n", "g := fn () {\n{\n@}\n}\ng()\n", "ob := {\"m\": fn () {\n@}}\nob.m()\n", "fn f() {\nreturn fn () {\n@}\n}\nf()()\n", "i := 0\nwhile i < 1 {\ni += 1\n@}\n"] {
+        for body in ["print({a})\n", "print({a, \"z\": 0})\n", "q := {a}\nprint(q.a)\n", "a2 := 5\nprint({a, a2})\n", "print({a} == {\"a\": a})\n"] {
+            v.push(Case::new(format!("a := 1\n{}", ctxt.replace('@', body)), 601, format!("shorthand in {:?}", ctxt.replace('\n', " "))));
+        }
+    }
     // interpolated literals as names in every naming position
     for pos in [
         "o := {$\"k${x}\": 1}\nprint(o)\n",
